@@ -84,6 +84,12 @@ def dump_many(repo, cfgdir, cfiles, defines=('-DDEBUG=1',)):
     return dict(zip(cfiles, res))
 
 
+def little_endian():
+    """byte order of the target clang-14 compiles for (the harness runs on the same target)"""
+    p = subprocess.run(['clang-14', '-dM', '-E', '-x', 'c', '/dev/null'], capture_output=True, text=True)
+    return p.returncode == 0 and re.search(r'#define __BYTE_ORDER__ __ORDER_LITTLE_ENDIAN__\b', p.stdout) is not None
+
+
 def src_files(repo):
     out = []
     for d, _, fs in os.walk(os.path.join(repo, 'src')):
